@@ -162,7 +162,9 @@ Definition sync_verdict (pl : bool) (rd bt ch p brk : bool) (t : task) (o : sobs
   let '(l, en, rd', bt', rep) := o in
   let held_after := negb rd' || bt' in
   let changed := ch || existsb is_change l in
-  if held_after && negb brk && existsb (fun x => is_reload x || is_api x) l then 1
+  (* 11: the queue is empty at the end of the sync but the window did not close *)
+  if Nat.eqb (t_qlen t) 0 && held_after then 11
+  else if held_after && negb brk && existsb (fun x => is_reload x || is_api x) l then 1
   else if existsb is_failed_reload l && negb rep then
          (* whose reload failed?  The log of a sync is: handler part, then (if updateAllConfigs ran) the main
             config write and everything after it, or (batch ended through ReloadForBatchUpdates) the closing
